@@ -183,7 +183,7 @@ class Check:
         if not os.path.exists(lock):
             shutil.copy(os.path.join(REPO, "Cargo.lock"), lock)
         rc, out, dt = sh(["cargo", "build", "--release", "--offline"], cwd=HARNESS,
-                         env={"RUSTFLAGS": GUARD_RUSTFLAGS, "CARGO_NET_OFFLINE": "true"}, timeout=3000)
+                         env={"RUSTFLAGS": GUARD_RUSTFLAGS, "CARGO_NET_OFFLINE": "true", "CARGO_TARGET_DIR": os.path.join(HARNESS, "target")}, timeout=3000)
         self.cov["harness_build_s"] = round(dt, 1)
         if rc != 0:
             self.notes.append({"harness_build_failed": out[-2000:]})
